@@ -613,4 +613,253 @@ fn run_collections(args: &Args, rep: &mut Report) {
         }
         rep.evaluations += 1;
     }
+    every_way_of_growing(args, rep, &mut rng);
+}
+
+const VEC_WAYS: [&str; 13] = ["push", "insert-front", "insert-middle", "extend_from_slice", "extend-exact-hint", "extend-no-hint", "splice-front-keeping-a-tail", "splice-middle", "resize", "append", "extend_from_slice_copy", "extend_from_slices_copy", "insert-back"];
+
+fn vec_add<'b>(v: &mut BVec<'b, u64>, b: &'b Bump, way: usize, k: usize, next: &mut u64) {
+    let items: Vec<u64> = (0..k as u64).map(|i| *next + i).collect();
+    *next += k as u64;
+    match way {
+        0 => {
+            for x in items {
+                v.push(x);
+            }
+        }
+        1 => {
+            for x in items {
+                v.insert(0, x);
+            }
+        }
+        2 => {
+            for x in items {
+                let at = v.len() / 2;
+                v.insert(at, x);
+            }
+        }
+        3 => v.extend_from_slice(&items),
+        4 => v.extend(items.into_iter()),
+        5 => v.extend(items.into_iter().filter(|_| true)),
+        6 => {
+            // replaced range empty, replacement longer, everything behind it is the tail
+            let _ = v.splice(0..0, items.into_iter());
+        }
+        7 => {
+            let at = v.len() / 2;
+            let hi = (at + 1).min(v.len());
+            let mut it = items;
+            // replace one element by k + 1 (or insert k into an empty vector)
+            it.push(*next);
+            *next += 1;
+            let removed: Vec<u64> = v.splice(at..hi, it.into_iter().filter(|_| true)).collect();
+            // net growth is k
+            let _ = removed;
+        }
+        8 => {
+            let n = v.len() + k;
+            v.resize(n, items.first().copied().unwrap_or(0));
+        }
+        9 => {
+            let mut other: BVec<u64> = BVec::from_iter_in(items.into_iter(), b);
+            v.append(&mut other);
+        }
+        10 => v.extend_from_slice_copy(&items),
+        11 => {
+            let (x, y) = items.split_at(k / 2);
+            v.extend_from_slices_copy(&[x, y]);
+        }
+        _ => {
+            for x in items {
+                let at = v.len();
+                v.insert(at, x);
+            }
+        }
+    }
+}
+
+const STR_WAYS: [&str; 10] = ["push", "push_str", "insert-front", "insert_str-middle", "replace_range-keeping-a-tail", "extend-chars", "extend-strs", "add-assign", "write!", "insert_str-back"];
+
+fn str_add(s: &mut BString, way: usize, piece: &str) {
+    use std::fmt::Write;
+    match way {
+        0 => {
+            for c in piece.chars() {
+                s.push(c);
+            }
+        }
+        1 => s.push_str(piece),
+        2 => {
+            for c in piece.chars().rev() {
+                s.insert(0, c);
+            }
+        }
+        3 => {
+            let mut at = s.len() / 2;
+            while !s.is_char_boundary(at) {
+                at -= 1;
+            }
+            s.insert_str(at, piece);
+        }
+        4 => {
+            // empty range at the front replaced by the piece: all the old text is the tail
+            s.replace_range(0..0, piece);
+        }
+        5 => s.extend(piece.chars()),
+        6 => s.extend([piece].iter().copied()),
+        7 => *s += piece,
+        8 => {
+            let _ = write!(s, "{}", piece);
+        }
+        _ => {
+            let at = s.len();
+            s.insert_str(at, piece);
+        }
+    }
+}
+
+/// C18 for every operation that adds elements, not only push: inside reserved capacity nothing
+/// moves, and unbounded growth reallocates O(log n) times.
+fn every_way_of_growing(args: &Args, rep: &mut Report, rng: &mut Rng) {
+    let miri = cfg!(miri);
+    let _ = args;
+    let rounds = if miri { 1 } else { 12 };
+    for round in 0..rounds {
+        for way in 0..VEC_WAYS.len() {
+            let name = VEC_WAYS[way];
+            // (a) inside reserved capacity
+            {
+                let b = Bump::new();
+                let cap = if miri { rng.range(8, 40) } else { rng.range(8, 600) } as usize;
+                let mut v: BVec<u64> = BVec::with_capacity_in(cap, &b);
+                let c0 = v.capacity();
+                let mut next = 1u64;
+                if rng.chance(1, 2) {
+                    v.push(0); // a tail for the splices
+                }
+                b.alloc(9u8);
+                let p0 = v.as_ptr();
+                rep.ctx = format!("C18 every-way vec {} reserved {}", name, cap);
+                loop {
+                    let room = c0 - v.len();
+                    let extra = if way == 7 { 1 } else { 0 };
+                    if room < 1 + extra {
+                        break;
+                    }
+                    let k = (rng.range(1, 6) as usize).min(room - extra);
+                    vec_add(&mut v, &b, way, k, &mut next);
+                    if way == 9 {
+                        // the temporary other vector was the last allocation; keep a neighbour behind us again
+                    }
+                    if v.as_ptr() != p0 || v.capacity() != c0 {
+                        rep.violate("C18", format!("C18/vec<u64>/moved-within-reserved-capacity/{}", name), format!("capacity {} len {} after adding {}: buffer moved {} capacity now {}", c0, v.len(), k, v.as_ptr() != p0, v.capacity()));
+                        break;
+                    }
+                }
+                rep.bump("c18.every_way_reserved_cases");
+                rep.evaluations += 1;
+                rep.distinct.insert(fnv(fnv(way as u64, cap as u64), 0xE1 + round as u64));
+            }
+            // (b) growth from nothing
+            {
+                let b = Bump::new();
+                let target = if miri { 60 } else { [300usize, 3000, 20_000][round % 3] };
+                let target = if matches!(way, 1 | 2 | 6 | 7) { target.min(3000) } else { target }; // quadratic data movement
+                let mut v: BVec<u64> = BVec::new_in(&b);
+                let mut next = 1u64;
+                let mut changes = 0usize;
+                let mut last_cap = v.capacity();
+                rep.ctx = format!("C18 every-way vec {} growth to {}", name, target);
+                while v.len() < target {
+                    let k = rng.range(1, 6) as usize;
+                    vec_add(&mut v, &b, way, k, &mut next);
+                    if next % 5 == 0 {
+                        b.alloc(1u8);
+                    }
+                    if v.capacity() != last_cap {
+                        if v.capacity() < 2 * last_cap && last_cap > 0 {
+                            rep.bump("c18.every_way_growth_steps_below_doubling");
+                        }
+                        changes += 1;
+                        last_cap = v.capacity();
+                    }
+                }
+                let bound = 4 + log2f(v.len());
+                if changes > bound {
+                    rep.violate("C18", format!("C18/vec<u64>/reallocations-not-logarithmic/{}", name), format!("{} capacity changes while growing to {} elements (bound {})", changes, v.len(), bound));
+                }
+                let occupied = v.len() * 8 + v.len() / 5 + 1;
+                if b.allocated_bytes() > 24 * occupied + (16 << 10) && way != 9 {
+                    rep.violate("C18", format!("C18/vec<u64>/held-memory-not-within-constant-factor/{}", name), format!("held {} for {} occupied", b.allocated_bytes(), occupied));
+                }
+                rep.bump("c18.every_way_growth_cases");
+                rep.evaluations += 1;
+                rep.distinct.insert(fnv(fnv(way as u64, target as u64), 0xE2 + round as u64));
+            }
+        }
+        for way in 0..STR_WAYS.len() {
+            let name = STR_WAYS[way];
+            let pieces = ["a", "bc", "é", "€", "😀", "xyz", "日本"];
+            {
+                let b = Bump::new();
+                let cap = if miri { rng.range(8, 40) } else { rng.range(8, 600) } as usize;
+                let mut s = BString::with_capacity_in(cap, &b);
+                let c0 = s.capacity();
+                if rng.chance(1, 2) {
+                    s.push('t');
+                }
+                b.alloc(9u8);
+                let p0 = s.as_ptr();
+                rep.ctx = format!("C18 every-way string {} reserved {}", name, cap);
+                loop {
+                    let room = c0 - s.len();
+                    let fit: Vec<&str> = pieces.iter().copied().filter(|p| p.len() <= room).collect();
+                    if fit.is_empty() {
+                        break;
+                    }
+                    let piece = fit[rng.below(fit.len())];
+                    str_add(&mut s, way, piece);
+                    if s.as_ptr() != p0 || s.capacity() != c0 {
+                        rep.violate("C18", format!("C18/string/moved-within-reserved-capacity/{}", name), format!("capacity {} len {} after adding {:?}: buffer moved {} capacity now {}", c0, s.len(), piece, s.as_ptr() != p0, s.capacity()));
+                        break;
+                    }
+                }
+                rep.bump("c18.every_way_reserved_cases");
+                rep.evaluations += 1;
+                rep.distinct.insert(fnv(fnv(way as u64, cap as u64), 0xE3 + round as u64));
+            }
+            {
+                let b = Bump::new();
+                let target = if miri { 80 } else { [400usize, 4000, 30_000][round % 3] };
+                let target = if matches!(way, 2 | 3 | 4) { target.min(4000) } else { target };
+                let mut s = BString::new_in(&b);
+                let mut changes = 0usize;
+                let mut last_cap = s.capacity();
+                let mut i = 0usize;
+                rep.ctx = format!("C18 every-way string {} growth to {}", name, target);
+                while s.len() < target {
+                    let piece = pieces[rng.below(pieces.len())];
+                    str_add(&mut s, way, piece);
+                    i += 1;
+                    if i % 5 == 0 {
+                        b.alloc(1u8);
+                    }
+                    if s.capacity() != last_cap {
+                        changes += 1;
+                        last_cap = s.capacity();
+                    }
+                }
+                let bound = 4 + log2f(s.len());
+                if changes > bound {
+                    rep.violate("C18", format!("C18/string/reallocations-not-logarithmic/{}", name), format!("{} capacity changes while growing to {} bytes (bound {})", changes, s.len(), bound));
+                }
+                if b.allocated_bytes() > 24 * (s.len() + i / 5 + 1) + (16 << 10) {
+                    rep.violate("C18", format!("C18/string/held-memory-not-within-constant-factor/{}", name), format!("held {} for {} bytes", b.allocated_bytes(), s.len()));
+                }
+                rep.bump("c18.every_way_growth_cases");
+                rep.evaluations += 1;
+                rep.distinct.insert(fnv(fnv(way as u64, target as u64), 0xE4 + round as u64));
+            }
+        }
+    }
 }
